@@ -114,6 +114,10 @@ pub fn judge(h: &Honest, ran: &mut Ran) {
         // with idle timeout disabled an honest connection must never be lost
         let reasons: Vec<String> = ran.w.eps.iter().flat_map(|e| e.conns.values().flat_map(|c| c.app.lost.clone())).collect();
         let tolerated = reasons.iter().all(|r| r.contains("INVALID_TOKEN")) && ran.w.mon.rebinds > 0;
+        // Version Negotiation is unauthenticated by design: a corrupting network can turn a genuine
+        // long-header packet (version 1 -> 0) into one, and a client that has not yet accepted a
+        // server packet gives up on it (what C04 permits)
+        let tolerated = tolerated || (reasons.iter().all(|r| r.contains("VersionMismatch")) && ran.w.net.fired.get("corrupt") > 0);
         if !tolerated {
             ran.w.led.violate("C02", format!("connection lost although peers are honest and idle timeout is off: {reasons:?} | {}", h.summary()));
         }
